@@ -432,6 +432,8 @@ class Interp:
 
     # ------------------------------------------------------------------ modules
     def module(self, name):
+        if name.startswith('sigtools.') and 'sigtools' not in self.modules:
+            self.module('sigtools')      # as in CPython: the package's __init__ runs before any of its submodules
         m = self.modules.get(name)
         if m is None:
             m = IModule(name, self)
